@@ -1460,6 +1460,62 @@ def gen_deep():
     return out
 
 
+def gen_wide():
+    """Wide rather than deep (limits on counts show up here): 70 parameters and arguments, 70 functions
+    calling each other, 300 shadowing lets in one block, a struct with 70 attributes, a 300-character
+    identifier, 70 constants chained."""
+    out = []
+    i32 = ["prim", "i32"]
+    L = lambda k=1: ["prim", ["pv", "i32", k]]
+    # 1. 70 parameters, all read; a call with 70 arguments
+    g = Gen(10)
+    ps = ["p%d" % k for k in range(70)]
+    summ = ["expr", ["name", g.ident(ps[0])]] + [["Plus", ["name", g.ident(q)]] for q in ps[1:]]
+    out.append((["program",
+                 ["fn", g.ident("wide"), ["params"] + [[g.ident(q), i32] for q in ps], i32, ["body", ["ret", summ]]],
+                 ["fn", g.ident("f"), ["params"], i32,
+                  ["body", ["ret", ["expr", ["call", g.ident("wide")] + [["expr", L(k)] for k in range(70)]]]]]],
+                {"stream": "wide", "params": 70}))
+    # 2. 70 functions, each calling the previous one
+    g = Gen(11)
+    fns = [["fn", g.ident("f0"), ["params", [g.ident("a"), i32]], i32, ["body", ["ret", ["expr", ["name", g.ident("a")]]]]]]
+    for k in range(1, 70):
+        fns.append(["fn", g.ident("f%d" % k), ["params", [g.ident("a"), i32]], i32,
+                    ["body", ["ret", ["expr", ["call", g.ident("f%d" % (k - 1)), ["expr", ["name", g.ident("a")], ["Plus", L(k)]]]]]]])
+    out.append((["program"] + fns, {"stream": "wide", "functions": 70}))
+    # 3. 300 shadowing lets in one block
+    g = Gen(12)
+    body = [["let", g.ident("x"), 0, ["noty"], ["expr", L(0)]]]
+    for k in range(1, 300):
+        body.append(["let", g.ident("x"), 0, ["noty"], ["expr", ["name", g.ident("x")], ["Plus", L(k % 7)]]])
+    out.append((["program", ["fn", g.ident("f"), ["params"], i32, ["body"] + body + [["ret", ["expr", ["name", g.ident("x")]]]]]],
+                {"stream": "wide", "lets": 300}))
+    # 4. a struct with 70 attributes
+    g = Gen(13)
+    attrs = [("a%d" % k, i32) for k in range(70)]
+    sty = lambda: ["struct", g.ident("Big")] + [["attr", g.ident(a), t] for a, t in attrs]
+    out.append((["program", ["struct", g.ident("Big")] + [["attr", g.ident(a), t] for a, t in attrs],
+                 ["fn", g.ident("f"), ["params", [g.ident("b"), sty()]], i32,
+                  ["body", ["let", g.ident("u"), 0, ["ty", i32], ["expr", ["field", g.ident("b"), g.ident("a69")]]],
+                   ["ret", ["expr", ["field", g.ident("b"), g.ident("a0")]]]]]],
+                {"stream": "wide", "attributes": 70}))
+    # 5. a 300-character identifier
+    g = Gen(14)
+    long = "v" + "_long" * 60
+    out.append((["program", ["fn", g.ident("f"), ["params", [g.ident(long), i32]], i32,
+                             ["body", ["let", g.ident(long), 0, ["noty"], ["expr", ["name", g.ident(long)], ["Plus", L()]]],
+                              ["ret", ["expr", ["name", g.ident(long)]]]]]],
+                {"stream": "wide", "identifier": len(long)}))
+    # 6. 70 constants, each built from the previous one
+    g = Gen(15)
+    cs = [["const", g.ident("c0"), i32, ["cexpr", ["cval", ["pv", "i32", 1]]]]]
+    for k in range(1, 70):
+        cs.append(["const", g.ident("c%d" % k), i32, ["cexpr", ["cval", ["pv", "i32", 1]], ["Plus", ["cconst", g.ident("c%d" % (k - 1))]]]])
+    out.append((["program"] + cs + [["fn", g.ident("f"), ["params"], i32, ["body", ["ret", ["expr", ["name", g.ident("c69")]]]]]],
+                {"stream": "wide", "constants": 70}))
+    return out
+
+
 def generate(seed, n_wf, n_fault, n_free, n_known=0):
     """Deterministic batch: list of (program, meta)."""
     out = []
